@@ -181,6 +181,12 @@ pub fn run<E: Entry>(ctx: &mut Ctx) {
         ctx.end_history();
         return;
     }
+    // the next generation built from a clone and from a clone_from copy must not differ either
+    // (statistics of coded regions are state that only merge_regions consults)
+    if !next_generation::<E>(ctx, &b, &c, "clone_from-vs-clone", "regions merged from the clone / from the clone_from copy") {
+        ctx.end_history();
+        return;
+    }
     // divergence: a gets H2, b and c get H3 in lock-step
     let steps = ctx.rng.range(1, 10);
     for _ in 0..steps {
